@@ -1,4 +1,5 @@
 """C10 -- batch defers all reactions to the end of the outermost batch (DESIGN.md 5.C10)."""
+import c02
 import rcheck
 import reactive_gen
 
@@ -24,8 +25,9 @@ def batch_in_effect(rng, n):
 
 
 def gen(tier, rng):
-    n = 1200 if tier == "quick" else 12000
+    n = 900 if tier == "quick" else 12000
     cases = [("batch-in-effect:%d" % i, p) for i, p in enumerate(batch_in_effect(rng, 30 if tier == "quick" else 300))]
+    cases += [("fanin-batch:%d" % i, p) for i, p in enumerate(c02.fanin_batches(rng, 300 if tier == "quick" else 4000))]
     cases += [("random:%d" % i, p) for i, p in
               enumerate(reactive_gen.random_programs(rng.randrange(1 << 30), n, FEATS, (3, 7), (3, 7)))]
     return cases
